@@ -175,6 +175,7 @@ class St(typing.NamedTuple):
     config: typing.Any
     gschema: tuple = ('G0', frozenset())    # (global schema tag, frozenset of roles)
     mig: typing.Any = None                  # Mig while a migration block is open
+    rw: typing.Any = None                   # Rw while a migration rewrite block is open
 
 
 ROLES = ('r1', 'r2')
@@ -187,6 +188,15 @@ class Mig(typing.NamedTuple):
     start: tuple           # (tag, modules) of the schema at START MIGRATION
     own_tx: bool           # START MIGRATION opened the transaction itself
     order: int             # savepoint counter at START MIGRATION
+    ttag: str = ''         # tag of the target schema object (what COMMIT MIGRATION adopts inside a rewrite)
+
+
+class Rw(typing.NamedTuple):
+    """A MIGRATION REWRITE block in progress: the schema is rebuilt from scratch in the compiler
+    only; the backend keeps the schema the block started from."""
+    start: tuple           # (tag, modules) of the schema at START MIGRATION REWRITE
+    own_tx: bool
+    order: int
 
 
 class _BackendFailure(Exception):
@@ -349,16 +359,20 @@ class World:
                   'ddl', 'alias', 'reset_alias', 'config', 'gddl')
         if getattr(self, 'mig_enabled', False):
             in_mig = m.current().mig is not None
-            kinds_ += ('mig_start', 'mig_populate', 'mig_commit', 'mig_abort')
+            in_rw = m.current().rw is not None
+            kinds_ += ('mig_start', 'mig_populate', 'mig_commit', 'mig_abort', 'rw_start', 'rw_commit', 'rw_abort')
             if m.in_tx and m.err:
                 #    query start commit rollback declare release rollback_to ddl alias reset config gddl
-                w = [1, 0, 1, 2, 1, 1, 5, 1, 1, 0, 1, 0] + ([0, 0, 1, 6] if in_mig else [1, 0, 0, 1])
+                w = [1, 0, 1, 2, 1, 1, 5, 1, 1, 0, 1, 0] + ([0, 0, 1, 6] if in_mig else [1, 0, 0, 1]) + \
+                    ([0, 1, 5] if in_rw else [0, 0, 1])
             elif in_mig:
-                w = [2, 1, 1, 1, 4, 2, 4, 8, 1, 1, 1, 1] + [1, 3, 5, 4]
+                w = [2, 1, 1, 1, 4, 2, 4, 8, 1, 1, 1, 1] + [1, 3, 5, 4] + ([0, 1, 2] if in_rw else [1, 0, 0])
+            elif in_rw:
+                w = [2, 1, 2, 1, 3, 2, 3, 4, 1, 1, 1, 1] + [8, 1, 1, 1] + [1, 5, 3]
             elif m.in_tx:
-                w = [2, 1, 2, 1, 4, 2, 3, 3, 1, 1, 1, 1] + [7, 1, 1, 1]
+                w = [2, 1, 2, 1, 4, 2, 3, 3, 1, 1, 1, 1] + [7, 1, 1, 1] + [2, 1, 1]
             else:
-                w = [2, 5, 1, 1, 1, 1, 1, 2, 1, 1, 1, 1] + [5, 1, 1, 1]
+                w = [2, 5, 1, 1, 1, 1, 1, 2, 1, 1, 1, 1] + [5, 1, 1, 1] + [2, 1, 1]
         kind = kinds_[t.weighted(w, 'stmt_kind')]
         arg = ''
         if kind == 'query':
@@ -408,12 +422,30 @@ class World:
                 arg = al
         elif kind == 'mig_start':
             cur_mods = self.m.current()[0][1]
-            tgt = set(cur_mods)
-            for _ in range(1 + t.draw(2, 'mig_ntoggle')):
-                tgt ^= {MODS[t.draw(len(MODS), 'mig_toggle')]}
-            ql = qlast.StartMigration(target=isl['mktarget'](tgt))
+            rw = self.m.current().rw
+            if rw is not None and t.draw(3, 'mig_committed'):
+                # START MIGRATION TO COMMITTED SCHEMA (only meaningful inside a rewrite block)
+                tgt = set(rw.start[1])
+                ql = qlast.StartMigration(target=qlast.CommittedSchema())
+                ql.__dict__['ttag'] = rw.start[0]
+                arg = 'committed'
+            else:
+                tgt = set(cur_mods)
+                for _ in range(1 + t.draw(2, 'mig_ntoggle')):
+                    tgt ^= {MODS[t.draw(len(MODS), 'mig_toggle')]}
+                ql = qlast.StartMigration(target=isl['mktarget'](tgt))
+                ql.__dict__['ttag'] = 'T(' + ','.join(sorted(tgt - {'default', 'std'})) + ')'
+                arg = ','.join(sorted(tgt - {'default', 'std'}))
             ql.__dict__['tgt'] = frozenset(tgt)
-            arg = ','.join(sorted(tgt - {'default', 'std'}))
+        elif kind == 'rw_start':
+            ql = qlast.StartMigrationRewrite()
+        elif kind == 'rw_commit':
+            ql = qlast.CommitMigrationRewrite()
+            if self.cfg['preject'] and t.chance(self.cfg['preject'], 100, 'rw_commit_reject'):
+                ql.__dict__['reject_delta'] = True
+                arg = 'reject'
+        elif kind == 'rw_abort':
+            ql = qlast.AbortMigrationRewrite()
         elif kind == 'mig_populate':
             ql = qlast.PopulateMigration()
         elif kind == 'mig_commit':
@@ -458,13 +490,26 @@ class World:
                 # ROLLBACK when the migration owns the transaction, otherwise a no-op
                 # SELECT, which an aborted backend transaction refuses
                 return mig is not None and (mig.own_tx or not m.pg_err)
+            if kind == 'rw_abort':
+                return cur.rw is not None and (cur.rw.own_tx or not m.pg_err)
             return kind == 'rollback' or (kind == 'rollback_to' and any(s[0] == arg for s in m.sps))
         if kind == 'start':
             return not m.in_tx
         if kind == 'commit':
-            return m.in_tx and mig is None          # "cannot execute COMMIT in a migration block"
+            # "cannot execute COMMIT in a migration [rewrite] block": what such a block has built exists
+            # only in the compiler; a COMMIT would publish it as the schema of the database
+            return m.in_tx and mig is None and cur.rw is None
         if kind == 'mig_start':
-            return mig is None
+            return mig is None and (cur.rw is not None or not isinstance(ql.target, self.isl['qlast'].CommittedSchema))
+        if kind == 'rw_start':
+            return mig is None and cur.rw is None
+        if kind == 'rw_commit':
+            return (cur.rw is not None and mig is None and cur[0][1] == cur.rw.start[1]
+                    and not ql.__dict__.get('reject_delta'))
+        if kind == 'rw_abort':
+            return cur.rw is not None
+        if kind == 'gddl' and cur.rw is not None:
+            return False                            # only CREATE MIGRATION is recorded in a rewrite block
         if kind == 'mig_populate':
             return mig is not None
         if kind == 'mig_commit':
@@ -504,13 +549,15 @@ class World:
         if m.in_tx and m.err:
             if kind == 'mig_abort' and cur.mig is not None:
                 return m.pg_err and not cur.mig.own_tx
+            if kind == 'rw_abort' and cur.rw is not None:
+                return m.pg_err and not cur.rw.own_tx
             return not (kind == 'rollback' or (kind == 'rollback_to' and any(s[0] == arg for s in m.sps)))
         if kind == 'declare':
             return not m.in_tx
         if kind in ('release', 'rollback_to'):
             return not (m.in_tx and any(s[0] == arg for s in m.sps))
         if kind == 'ddl':
-            if cur.mig is not None:
+            if cur.mig is not None or cur.rw is not None:
                 return False            # recorded by the compiler, SQL is a no-op
             have = ql.tag in cur[0][1]
             return have if ql.op == 'add' else not have
@@ -534,8 +581,35 @@ class World:
                 m.err = m.pg_err = False
                 m.cur = m.state0 = m.base
                 m.sps = []
-            m.cur = m.cur._replace(mig=Mig(ql.__dict__['tgt'], m.cur.schema, own, self.sp_order))
-            self.probes['migration_started_' + ('own_tx' if own else 'in_block')] += 1
+            m.cur = m.cur._replace(mig=Mig(ql.__dict__['tgt'], m.cur.schema, own, self.sp_order, ql.__dict__['ttag']))
+            self.probes['migration_started_' + ('own_tx' if own else 'in_rewrite' if m.cur.rw else 'in_block')] += 1
+        elif kind == 'rw_start':
+            own = not m.in_tx
+            if own:
+                m.in_tx = True
+                m.err = m.pg_err = False
+                m.cur = m.state0 = m.base
+                m.sps = []
+            m.cur = m.cur._replace(schema=('R0', frozenset(['default', 'std'])), rw=Rw(m.cur.schema, own, self.sp_order))
+            self.probes['rewrite_started_' + ('own_tx' if own else 'in_block')] += 1
+        elif kind == 'rw_commit':
+            self.note_migration_end(cur.rw)
+            m.cur = cur._replace(schema=cur.rw.start, rw=None)
+            self.probes['rewrite_committed'] += 1
+            if cur.rw.own_tx:
+                m.base = m.cur
+                m.in_tx = False
+                m.sps = []
+        elif kind == 'rw_abort':
+            self.note_migration_end(cur.rw)
+            self.probes['rewrite_aborted' + ('_in_error_state' if m.err else '')] += 1
+            if cur.rw.own_tx:
+                m.in_tx = False
+                m.err = m.pg_err = False
+                m.sps = []
+            else:
+                m.cur = cur._replace(schema=cur.rw.start, rw=None, mig=None)
+                m.err = False
         elif kind == 'mig_populate':
             tag, mods = cur[0]
             tgt = cur.mig.target
@@ -547,7 +621,10 @@ class World:
         elif kind == 'mig_commit':
             self.note_migration_end(cur.mig)
             m.cur = cur._replace(mig=None)
-            self.probes['migration_committed'] += 1
+            if cur.rw is not None:
+                # inside a rewrite the block is only recorded, and the compiler adopts the target schema object
+                m.cur = m.cur._replace(schema=(cur.mig.ttag, cur.mig.target))
+            self.probes['migration_committed' + ('_in_rewrite' if cur.rw is not None else '')] += 1
             if cur.mig.own_tx:
                 m.base = m.cur
                 m.in_tx = False
@@ -582,7 +659,7 @@ class World:
             n_same = sum(1 for s in m.sps if s[0] == arg)
             while m.sps:
                 ent = m.sps.pop()
-                if cur.mig is not None and not cur.mig.own_tx and ent[3] <= cur.mig.order:
+                if any(b is not None and not b.own_tx and ent[3] <= b.order for b in (cur.mig, cur.rw)):
                     # a savepoint older than the open migration block is released: the compiler's
                     # own (invisible) migration savepoint goes with it
                     self.flags.add('migration-savepoint-released')
@@ -674,7 +751,7 @@ class World:
         return ug
 
     TCL = ('start', 'commit', 'rollback', 'declare', 'release', 'rollback_to')
-    MIGK = ('mig_start', 'mig_populate', 'mig_commit', 'mig_abort')
+    MIGK = ('mig_start', 'mig_populate', 'mig_commit', 'mig_abort', 'rw_start', 'rw_commit', 'rw_abort')
 
     def one_message(self, stmts, kinds):
         if len(stmts) > 1 and not any(k in self.TCL for k, _ in kinds):
@@ -687,14 +764,20 @@ class World:
         where = 'aborted' if (m.in_tx and m.err) else 'block' if m.in_tx else 'outside'
         if m.current().mig is not None:
             where += '-in-migration'
+        elif m.current().rw is not None:
+            where += '-in-rewrite'
         if m.in_tx:
             self.in_block_steps += 1
 
         # backend failure decided up-front (so that the tape does not depend on outcomes)
         eligible = kind in ('ddl', 'gddl', 'query', 'alias', 'reset_alias', 'config', 'commit', 'mig_commit') or (
             self.cfg['exotic'] and kind in ('start', 'declare', 'release', 'rollback', 'rollback_to'))
-        if kind == 'ddl' and m.current().mig is not None:
-            eligible = False        # DDL inside a migration block sends a no-op to the backend
+        if kind == 'ddl' and (m.current().mig is not None or m.current().rw is not None):
+            eligible = False        # DDL inside a migration (rewrite) block sends a no-op to the backend
+        if kind == 'rw_commit':
+            eligible = True
+        if kind == 'mig_commit' and m.current().rw is not None:
+            eligible = False        # only recorded
         befail = bool(self.cfg['pbefail']) and t.chance(self.cfg['pbefail'], 100, 'backend_fail') and eligible
         refused = bool(self.cfg.get('prefuse')) and t.chance(self.cfg['prefuse'], 100, 'refused') and kind != 'query'
 
@@ -787,6 +870,8 @@ class World:
         if kind in ('mig_commit', 'mig_abort') and m.current().mig is not None:
             # the compiler ends the block when it compiles the command, whatever happens to the unit afterwards
             self.note_migration_end(m.current().mig)
+        if kind in ('rw_commit', 'rw_abort') and m.current().rw is not None:
+            self.note_migration_end(m.current().rw)
         # ---- T1: what did the compiler see? ----
         if kind == 'query' and not is_script:
             if not isl['observed'].get(self.obs_key):
@@ -1047,21 +1132,25 @@ class World:
 
     # -- T3 ------------------------------------------------------------------------------
     def check_unit_fields(self, unit, kind, arg, where, kinds):
-        mig = self.m.current().mig
-        own = mig is not None and mig.own_tx
-        if kind in self.MIGK and kind != 'mig_start' and mig is None:
+        cur = self.m.current()
+        mig, rw = cur.mig, cur.rw
+        if kind in ('mig_populate', 'mig_commit', 'mig_abort') and mig is None:
             return      # accepted although no migration block is open: handled by the caller
+        if kind in ('rw_commit', 'rw_abort') and rw is None:
+            return
+        own = (kind.startswith('mig_') and mig is not None and mig.own_tx) or \
+              (kind.startswith('rw_') and rw is not None and rw.own_tx)
         exp = {
-            'tx_commit': kind == 'commit' or (kind == 'mig_commit' and own),
-            'tx_rollback': kind == 'rollback' or (kind == 'mig_abort' and own),
+            'tx_commit': kind == 'commit' or (kind in ('mig_commit', 'rw_commit') and own),
+            'tx_rollback': kind == 'rollback' or (kind in ('mig_abort', 'rw_abort') and own),
             'tx_savepoint_declare': kind == 'declare', 'tx_savepoint_rollback': kind == 'rollback_to',
-            'tx_abort_migration': kind == 'mig_abort' and not own,
+            'tx_abort_migration': kind in ('mig_abort', 'rw_abort') and not own,
         }
         for f, want in exp.items():
             if bool(getattr(unit, f)) != want:
                 self.violate('T3', f'unit-field:{f}:{kind}', f'{self.describe(kinds)}: unit.{f}={getattr(unit, f)!r}')
                 return
-        if (unit.tx_id is not None) != (kind == 'start' or (kind == 'mig_start' and not self.m.in_tx)):
+        if (unit.tx_id is not None) != (kind == 'start' or (kind in ('mig_start', 'rw_start') and not self.m.in_tx)):
             self.violate('T3', f'unit-field:tx_id:{kind}', f'{self.describe(kinds)}: unit.tx_id={unit.tx_id!r}')
             return
         if kind in ('declare', 'rollback_to') and unit.sp_name != arg:
@@ -1109,7 +1198,7 @@ class World:
             # execute.pyx:403-409
             if dv.in_tx:
                 dv.tx_error = True
-            if unit.tx_commit and dv.in_tx and kind != 'mig_commit':
+            if unit.tx_commit and dv.in_tx and kind not in ('mig_commit', 'rw_commit'):
                 # COMMIT failed: the backend is no longer in a transaction
                 # (execute.pyx:403-409; for "<migration DDL>; COMMIT" the DDL fails first and
                 # the backend stays in its aborted transaction)
